@@ -177,6 +177,9 @@ def list_targets(coredata: cdata.CoreData, builddata: build.Build, backend: back
             raise RuntimeError('The target object in `builddata.get_targets()` is not of type `build.Target`. Please file a bug with this error message.')
 
         outdir = get_target_dir(builddata.environment.coredata, target.get_builddir())
+        if outdir == 'meson-out' and target.get_build_subdir():
+            # layout=flat keeps build_subdir below meson-out, like the backend does
+            outdir = os.path.join(outdir, target.get_build_subdir())
         t = {
             'name': target.get_basename(),
             'id': idname,
